@@ -149,6 +149,11 @@ func ParseStreamCallback(reader io.Reader, c Config, callback ParseCallback) err
 			node.Elements.Add(title, fQty)
 		}
 	}
+	// the scan also stops when reading fails or a line does not fit the scanner's
+	// buffer: report that instead of treating it as the end of the file
+	if err = lineScanner.Err(); err != nil {
+		return NewErrorIO(err, "")
+	}
 	// push last node
 	if node != nil {
 		_, err = callback(node, nil)
